@@ -3,6 +3,7 @@ C14: a concrete well-formed table used by the non-vacuity examples of Props/C14.
 log grid front = 0, back = 2, three points (0, 1, 2), values 1, 2, 4 (positive, increasing).
 -/
 import CelerVerif.Lemmas.CalcLoss
+import CelerVerif.Lemmas.CalcGeneric
 import Mathlib.Tactic.IntervalCases
 
 namespace CelerVerif.Calc
@@ -63,5 +64,19 @@ theorem exGrid_invRange_below (r : ℝ) (h : r < 1) : (exGrid noScaling).invRang
   have h0 := (exGrid_y noScaling).1
   rw [(exGrid_WF noScaling).invRange_below (by rw [h0]; exact h), h0]
   simp [exGrid, UGrid.fromBounds]
+
+/-- generic grid x = 1, 2, 4, y = 10, 20, 40 stored one after the other -/
+noncomputable def exGen : GenGrid ℝ := ⟨0, 3, 3, #[1, 2, 4, 10, 20, 40]⟩
+
+theorem exGen_WF : exGen.WF := by
+  refine ⟨by simp [exGen], by simp [exGen], by simp [exGen], ?_⟩
+  intro i hi
+  have h2 : i < 2 := by have : i + 1 < 3 := hi; omega
+  interval_cases i <;> simp [GenGrid.X, exGen] <;> norm_num
+
+theorem exGen_YIncr : exGen.YIncr := by
+  intro i hi
+  have h2 : i < 2 := by have : i + 1 < 3 := hi; omega
+  interval_cases i <;> simp [GenGrid.Y, exGen] <;> norm_num
 
 end CelerVerif.Calc
